@@ -328,13 +328,15 @@ Record cfg := {
   d_logout_reject_unpauses : bool;  (* AppchainManager.Manage: a rejected logout unpauses the services whatever status the appchain returns to *)
   d_manage_reject_only : bool;      (* ServiceManager.Manage runs its not-approved follow-up only when the result string is "reject"
                                        (not the case in the code as it is) *)
+  d_withdraw_paused : bool;         (* Governance.WithdrawProposal accepts a PAUSED proposal (locked by a higher-priority proposal of the
+                                       same object, or paused with its object) and rejects it against whatever status the object has *)
   d_cache_key : N -> N;             (* the key under which the executor cache holds the record of a service id: the identity in the
                                        code as it is (exact "chain:service" string) *)
   d_cache_deferred : bool           (* the executor cache takes the records posted by a transaction only at the end of the block
                                        (not the case in the code as it is: applyTx stores them right after the transaction) *)
 }.
-Definition cfg_fixed : cfg := {| d_cache_failed_events := false; d_cache_not_reloaded := false; d_logout_reject_unpauses := false; d_manage_reject_only := false; d_cache_key := fun i => i; d_cache_deferred := false |}.
-Definition cfg_faithful : cfg := {| d_cache_failed_events := true; d_cache_not_reloaded := true; d_logout_reject_unpauses := true; d_manage_reject_only := false; d_cache_key := fun i => i; d_cache_deferred := false |}.
+Definition cfg_fixed : cfg := {| d_cache_failed_events := false; d_cache_not_reloaded := false; d_logout_reject_unpauses := false; d_manage_reject_only := false; d_withdraw_paused := false; d_cache_key := fun i => i; d_cache_deferred := false |}.
+Definition cfg_faithful : cfg := {| d_cache_failed_events := true; d_cache_not_reloaded := true; d_logout_reject_unpauses := true; d_manage_reject_only := false; d_withdraw_paused := true; d_cache_key := fun i => i; d_cache_deferred := false |}.
 
 (** * Service manager *)
 Definition lock_svc (i : N) (ev : string) (k : prog) : prog := Gov (fun ps => fst (lock_low KSvc i 0 ev ps)) k.
@@ -611,7 +613,7 @@ Definition conclude (f : cfg) (pid : N) (approve withdraw : bool) : prog :=
     match nth_error ps (N.to_nat pid) with
     | None => Fail
     | Some p =>
-        if negb ((p_status p =? PS_PROPOSED)%N || (withdraw && (p_status p =? PS_PAUSED)%N)) then Fail
+        if negb ((p_status p =? PS_PROPOSED)%N || (withdraw && d_withdraw_paused f && (p_status p =? PS_PAUSED)%N)) then Fail
         else
           Gov (upd_nth (N.to_nat pid) (set_pstatus (if approve then PS_APPROVED else PS_REJECTED)))
             (match p_lock p with
@@ -923,27 +925,36 @@ Definition first_mismatch (ms is : list obs) (i : N) : N := first_mismatch_m (ma
 Definition model_trace (f : cfg) (h : list op) : list obs := map obs_of (trace f st0 h).
 Definition model_trace_blocks (f : cfg) (bs : list (list op)) : list obs := map obs_of (trace_blocks f st0 bs).
 
-Definition cfg_of_bits4 (a b c d : bool) : cfg :=
-  {| d_cache_failed_events := a; d_cache_not_reloaded := b; d_logout_reject_unpauses := c; d_manage_reject_only := false; d_cache_key := fun i => i; d_cache_deferred := d |}.
+Definition cfg_of_bits5 (a b c d w : bool) : cfg :=
+  {| d_cache_failed_events := a; d_cache_not_reloaded := b; d_logout_reject_unpauses := c; d_manage_reject_only := false; d_withdraw_paused := w;
+     d_cache_key := fun i => i; d_cache_deferred := d |}.
+(** [d_withdraw_paused] is a fact of the code as it is *)
+Definition cfg_of_bits4 (a b c d : bool) : cfg := cfg_of_bits5 a b c d true.
 Definition cfg_reject_only : cfg :=
-  {| d_cache_failed_events := false; d_cache_not_reloaded := true; d_logout_reject_unpauses := false; d_manage_reject_only := true;
+  {| d_cache_failed_events := false; d_cache_not_reloaded := true; d_logout_reject_unpauses := false; d_manage_reject_only := true; d_withdraw_paused := true;
      d_cache_key := fun i => i; d_cache_deferred := false |}.
 (** the same flags with the cache keyed by the case-folded id *)
 Definition cfg_folded (g : cfg) : cfg :=
   {| d_cache_failed_events := d_cache_failed_events g; d_cache_not_reloaded := d_cache_not_reloaded g;
-     d_logout_reject_unpauses := d_logout_reject_unpauses g; d_manage_reject_only := d_manage_reject_only g; d_cache_key := fold_key; d_cache_deferred := d_cache_deferred g |}.
+     d_logout_reject_unpauses := d_logout_reject_unpauses g; d_manage_reject_only := d_manage_reject_only g; d_withdraw_paused := d_withdraw_paused g; d_cache_key := fold_key; d_cache_deferred := d_cache_deferred g |}.
 Definition cfg_of_bits (a b c : bool) : cfg := cfg_of_bits4 a b c false.
 (** the flag sets below [cur], the current one first *)
 Definition sub_cfgs (cur : cfg) : list cfg :=
   let opts (x : bool) := if x then [true; false] else [false] in
-  flat_map (fun a => flat_map (fun b => flat_map (fun c => map (fun d => cfg_of_bits4 a b c d) (opts (d_cache_deferred cur)))
+  flat_map (fun w => flat_map (fun a => flat_map (fun b => flat_map (fun c => map (fun d => cfg_of_bits5 a b c d w) (opts (d_cache_deferred cur)))
                                                  (opts (d_logout_reject_unpauses cur))) (opts (d_cache_not_reloaded cur)))
-           (opts (d_cache_failed_events cur)).
+           (opts (d_cache_failed_events cur))) (opts (d_withdraw_paused cur)).
+Definition without_withdraw_paused (g : cfg) : cfg :=
+  {| d_cache_failed_events := d_cache_failed_events g; d_cache_not_reloaded := d_cache_not_reloaded g;
+     d_logout_reject_unpauses := d_logout_reject_unpauses g; d_manage_reject_only := d_manage_reject_only g; d_withdraw_paused := false;
+     d_cache_key := d_cache_key g; d_cache_deferred := d_cache_deferred g |}.
 
 (** verdict of one history (a list of blocks): the property on the implementation's own trace first; then
     model = implementation under some flag set below the current one.
-    (2, w*100000 + 50000*e + i): property false at step i (w as above), e = 1 when the implementation's trace is
-    the model's trace under a flag set that has the flag responsible for w switched on;  (1, comp*1000 + i): mismatch *)
+    (2, w*100000 + 50000*e + 25000*e' + i): property false at step i (w as above), e = 1 when the implementation's
+    trace is the model's trace under a flag set that has the flag responsible for w switched on; e' = 1 when it is the
+    model's trace under a flag set with [d_withdraw_paused] on AND the same flag set with it off satisfies the property
+    on this history (the withdrawal of a paused proposal is what breaks it);  (1, comp*1000 + i): mismatch *)
 Definition judge_hist (cur : cfg) (c : list (list op) * list obs) : verdict :=
   let '(bs, tr) := c in
   let mask := hist_mask bs in
@@ -959,7 +970,12 @@ Definition judge_hist (cur : cfg) (c : list (list op) * list obs) : verdict :=
                               else if (w =? 4)%N then d_logout_reject_unpauses f else false
                   | None => false
                   end in
-         V_propfalse (d + (if e then 50000 else 0))
+         let e' := match matched with
+                   | Some f => d_withdraw_paused f && negb e &&
+                               (P_trace_blocks bs (model_trace_blocks (without_withdraw_paused f) bs) =? 0)%N
+                   | None => false
+                   end in
+         V_propfalse (d + (if e then 50000 else 0) + (if e' then 25000 else 0))
   end.
 
 (** ** the state-machine differential test: one row = the real ChangeStatus on (status, event, lastStatus) *)
